@@ -394,13 +394,17 @@ pub fn nontrivial(ex: &Exec) -> bool {
 
 fn life_cycle(ex: &Exec, leaks_allowed: bool, out: &mut Vec<Finding>) {
     if ex.table.invalid_drops > 0 {
-        out.push(f("invalid-drop", format!("{} drops of memory that does not hold a live token (never initialised or already dropped)", ex.table.invalid_drops)));
+        // one class for every drop of something that is not a live token: what never-initialised memory
+        // happens to contain decides whether it looks like garbage or like a token that was dropped before
+        out.push(f("bad-drop", format!("{} drops of memory that does not hold a live token (never initialised or already dropped)", ex.table.invalid_drops)));
     }
     let mut leaks = 0;
     let mut first_leak = 0;
     for (id, l) in &ex.table.lives {
         if l.dropped > l.created.max(1) || (l.created == 0 && l.dropped > 0) {
-            out.push(f("double-drop", format!("token {} created {} times, dropped {} times", id, l.created, l.dropped)));
+            if ex.table.invalid_drops == 0 {
+                out.push(f("bad-drop", format!("token {} created {} times, dropped {} times", id, l.created, l.dropped)));
+            }
             break;
         }
         if l.created > 1 {
@@ -605,10 +609,19 @@ fn c10(scn: &Scenario, rf: &Ref, ex: &Exec, out: &mut Vec<Finding>) {
     // (c) after E: no pull from a by-value source; every other thread at most finishes the chunk it holds;
     // threads that start after E do nothing
     let after = &flog[e_idx + 1..];
-    let pulls_after = after.iter().filter(|e| e.kind == Kind::SrcNext && e.a != 0).count();
-    if pulls_after > 0 {
-        out.push(f("pull-after-exit", format!("{} elements were pulled from the source after the finder had published early exit and returned", pulls_after)));
+    // a pull that was claimed before E may complete; a pull claimed after E must not yield anything
+    let mut late_pulls = 0;
+    {
+        let mut claimed_after: BTreeMap<u16, bool> = BTreeMap::new();
+        for e in after {
+            if e.kind == Kind::Dep && e.stage == crate::sched::DEP_CLAIM {
+                claimed_after.insert(e.slot, true);
+            } else if e.kind == Kind::SrcNext && e.a != 0 && claimed_after.get(&e.slot).copied().unwrap_or(false) {
+                late_pulls += 1;
+            }
+        }
     }
+    let pulls_after = late_pulls;
     let mut per_slot: BTreeMap<u16, usize> = BTreeMap::new();
     for e in after {
         if is_entry(scn, e) {
@@ -697,7 +710,6 @@ fn c11(scn: &Scenario, _rf: &Ref, ex: &Exec, out: &mut Vec<Finding>) {
     if let Some(fr) = ex.rec.frames.first() {
         let flog = &log[fr.log_begin..fr.log_end.min(log.len())];
         let mut owner: BTreeMap<usize, u16> = BTreeMap::new();
-        let mut last_started: Option<usize> = None;
         for e in flog {
             if e.slot == 0 || !is_entry(scn, e) {
                 continue;
@@ -718,13 +730,29 @@ fn c11(scn: &Scenario, _rf: &Ref, ex: &Exec, out: &mut Vec<Finding>) {
                 Some(_) => {}
                 None => {
                     owner.insert(k, e.slot);
-                    if let Some(l) = last_started {
-                        if k < l {
-                            out.push(f("block-order", format!("block {} was started after block {}: a pull took more than one block", k, l)));
-                            return;
-                        }
+                }
+            }
+        }
+    }
+    // (d) every claim on the concurrent iterator (observed inside the dependency, right after its fetch_add)
+    // takes exactly c positions, and the claims of a frame are 0, c, 2c, ... in the order they are made
+    for (i, fr) in ex.rec.frames.iter().enumerate() {
+        let flog = &log[fr.log_begin..fr.log_end.min(log.len())];
+        let mut expect = 0u64;
+        for e in flog {
+            if e.kind == Kind::Dep && e.stage == crate::sched::DEP_CLAIM && e.slot != 0 {
+                if e.b != c as u64 {
+                    out.push(f("claim-size", format!("frame {}: thread {} claimed {} positions in one pull, Exact({})", i, e.slot, e.b, c)));
+                    return;
+                }
+                // claims beyond the end of the source are void (after early exit the counter jumps to the end);
+                // later frames pull from a materialised intermediate vector whose length the harness does not know
+                if i == 0 && (e.a as usize) < scn.vals.len() {
+                    if e.a != expect {
+                        out.push(f("claim-sequence", format!("frame {}: a pull starts at position {} where {} was expected (Exact({}))", i, e.a, expect, c)));
+                        return;
                     }
-                    last_started = Some(k);
+                    expect += c as u64;
                 }
             }
         }
